@@ -20,7 +20,7 @@ ASSUMPTIONS = ['"recognised page": every line has baseline (2 px .. block width,
                'ALTO TextLine elements carry no id: lines are matched by order within their block']
 N = {'quick': 800, 'thorough': 40000}
 CLASSES = ['page', 'page', 'page_whitespace', 'page_arabic', 'page_conf', 'order_conversion', 'page_short_lines']
-REQUIRED = ['short_baseline_lines', 'exports', 'lines_expected', 'aligned_lines', 'fallback_lines', 'words_compared', 'nonascii_space_lines', 'arabic_lines', 'arabic_fallback_lines', 'dropped_lines',
+REQUIRED = ['aligned_lines_with_offset_window', 'astral_lines', 'entity_like_lines', 'short_baseline_lines', 'exports', 'lines_expected', 'aligned_lines', 'fallback_lines', 'words_compared', 'nonascii_space_lines', 'arabic_lines', 'arabic_fallback_lines', 'dropped_lines',
             'printspace_checked', 'reimports', 'conversions_checked']
 NS = '{http://www.loc.gov/standards/alto/ns-v2#}'
 CH = list("abcdefgh.,-") + [' '] + list('ابتثج')
@@ -120,6 +120,10 @@ def gen(rng, i, ctx):
                     words.append(''.join('ابتثج'[int(x)] for x in rng.integers(0, 5, size=int(rng.integers(1, 5)))))
                 else:
                     words.append(''.join('abcdefgh.,-Z9'[int(x)] for x in rng.integers(0, 13, size=int(rng.integers(1, 6)))))
+            # words outside the engine charset: astral-plane characters, and text that looks like an XML / HTML entity
+            for wi in range(len(words)):
+                if rng.random() < 0.08:
+                    words[wi] = str(rng.choice(['\U0001D504\U0001D505', 'a\U0001F600b', '\U00010330', '\U00020000x', '&lt;', '&amp;', 'a&#169;', '&copy', '&nbsp;x', '&quot;b&gt;', '&amp;lt;br&amp;gt;', '&#x41;']))
             kinds = ['single', 'single', 'double', 'lead', 'trail'] if cls != 'page_whitespace' else ['nbsp', 'tab', 'thin', 'ideo', 'mixed', 'mixed2', 'double', 'lead', 'trail']
             sep = str(rng.choice(kinds))
             if sep in SEPS:
@@ -136,7 +140,9 @@ def gen(rng, i, ctx):
                 t = str(rng.choice(['', '   ', None, '\t']))
                 t = None if t == 'None' else t
             mode = str(rng.choice(['peaky', 'peaky', 'noisy', 'noisy', 'diffuse', 'short', 'absent', 'nocoords', 'transformer']))
-            lines.append({'id': 'r%d-l%d' % (r, l), 'baseline': bl, 'heights': h, 'polygon': pg, 'text': t, 'mode': mode, 'seed': int(rng.integers(0, 1 << 30)), 'sep': sep, 'script': script})
+            pad = [int(rng.integers(1, 12)), int(rng.integers(0, 6))] if rng.random() < 0.5 else [0, 0]
+            lines.append({'id': 'r%d-l%d' % (r, l), 'baseline': bl, 'heights': h, 'polygon': pg, 'text': t, 'mode': mode, 'seed': int(rng.integers(0, 1 << 30)), 'sep': sep, 'script': script,
+                          'pad': pad})
         blocks.append({'id': 'r%d' % r, 'polygon': poly, 'lines': lines})
     mlc = float(rng.choice([0, 0.3, 0.99])) if cls == 'page_conf' or rng.random() < 0.3 else 0.0
     return {'cls': cls, 'size': [H, W], 'blocks': blocks, 'min_line_confidence': mlc}
@@ -156,6 +162,15 @@ def build(L, case):
                 lg, T = mk_logits(np.random.default_rng(l['seed']), l['text'], CH, 'peaky' if l['mode'] == 'nocoords' else l['mode'])
                 tl.logits, tl.characters = lg, list(CH) + ['<blank>']
                 tl.logit_coords = [None, None] if l['mode'] == 'nocoords' else [0, T]
+                p0, p1 = l.get('pad', [0, 0])
+                if l['mode'] != 'nocoords' and p0 + p1 > 0:
+                    # frames outside the line's own window (the crop was padded): confident about some other character
+                    prng = np.random.default_rng(l['seed'] + 1)
+                    dense = np.asarray(lg.todense())
+                    rows = np.zeros((p0 + p1, dense.shape[1]))
+                    rows[np.arange(p0 + p1), prng.integers(0, dense.shape[1] - 1, p0 + p1)] = 12.0
+                    tl.logits = sparse.csc_matrix(np.concatenate([rows[:p0], dense, rows[p0:]], 0))
+                    tl.logit_coords = [p0, p0 + T]
             reg.lines.append(tl)
         pl.regions.append(reg)
     return pl
@@ -238,6 +253,12 @@ def check(case, mon, ctx):
                 mon.count('short_baseline_lines')
             aligned = aligned_flags.get(l['id'], False)
             mon.count('aligned_lines' if aligned else 'fallback_lines')
+            if aligned and lo.logit_coords[0]:
+                mon.count('aligned_lines_with_offset_window')
+            if any(ord(ch) > 0xFFFF for ch in t):
+                mon.count('astral_lines')
+            if '&' in t:
+                mon.count('entity_like_lines')
             conf = lo.transcription_confidence
             # the confidence the drop rule uses: recomputed independently for aligned lines
             if aligned:
